@@ -525,6 +525,8 @@ func checkC17(res *Result) {
 	}
 	// R7
 	addErrFlowObligations(res, p, E, "C17-R7", append([]string{"sideEffectActor.InboxForwarding", "sideEffectActor.hasInboxForwardingValues"}, optionalFuncs(p, []string{"sideEffectActor.deliverToRecipients"})...), true)
+	res.Rule("C17-R7", "'is owned by this server' is asked about the value's id in the library's one sense (shared with C06-R7)")
+	checkIdentity(res, p, "C17-R7")
 	res.Assumptions = append(res.Assumptions, "value flow is an over-approximation", "CFG paths over-approximate feasible paths")
 	res.Undecided = []string{"the 'iff' at value level (which concrete ids are owned at which chain level)", "that the forwarded bytes equal the received bytes (C01)"}
 	res.Trusted = []string{"go/types, go/ssa (x/tools v0.29.0)", "e1_effects.go, e2_facts.go, e4_flow.go, e9_errflow.go"}
